@@ -1,2 +1,1 @@
 #include "mon.h"
-int mon_threads(const mon_args_t *a) { (void)a; hx_die("not built"); return 2; }
